@@ -99,6 +99,21 @@ def gadget(kind, n, tag, rnd):
             L += ["class %s:" % v(i), "    nxt: '%s'" % v(i + 1),
                   "    def step(self) -> '%s': ..." % v(i + 1), '']
         U = [v(0) + '().nxt.nxt.nxt.', v(0) + '().step().step().']
+    elif kind == 'dict_self_attr':
+        L += ['class %s:' % v(0), '    def __init__(self):', '        self.d = {}',
+              '        self.d = dict(self.d)', '        self.s = set(self.s)', '']
+        U = [v(0) + '().d[0].', v(0) + '().d', 'for q%s in %s().s: q%s' % (tag, v(0), tag)]
+    elif kind == 'type_comment_self':
+        L += ['for %s in []:  # type: %s' % (v(0), v(0)), '    pass']
+        U = [v(0), v(0) + '.']
+    elif kind == 'annotation_self_call':
+        L += ['def %s() -> "%s()":' % (v(0), v(0)), '    yield 1', '']
+        U = [v(0) + '()', 'for q%s in %s(): q%s' % (tag, v(0), tag)]
+    elif kind == 'mutual_literals':
+        n = max(n, 3)
+        for i in range(n):
+            L += ['def %s():' % v(i), '    return {"k": (%s(), [%s()])}' % (v(i + 1), v(i + 2)), '']
+        U = [v(0) + '()["k"][0]', v(0) + '()["k"][1][0].']
     else:
         raise ValueError(kind)
     return L, U
@@ -106,13 +121,15 @@ def gadget(kind, n, tag, rnd):
 
 GADGETS = ['assign', 'assign_fwd', 'call', 'call_unbounded', 'inherit', 'self_inherit', 'attr',
            'container', 'decorator', 'property', 'getattr', 'generator', 'lambda', 'closure',
-           'param_default', 'annotation']
+           'param_default', 'annotation', 'dict_self_attr', 'type_comment_self',
+           'annotation_self_call', 'mutual_literals']
 
 
 def cyclic_graph(rnd, max_nodes=40, getattr_max=3):
     """A buffer (plus optionally an import cycle across modules) made of several gadgets."""
     lines = []
     exprs = []
+    kinds = []
     nodes = 0
     k = 0
     files = {}
@@ -126,6 +143,7 @@ def cyclic_graph(rnd, max_nodes=40, getattr_max=3):
         L, U = gadget(kind, n, 'g%d' % k, rnd)
         lines += L
         exprs += U
+        kinds += [kind] * len(U)
         nodes += n
         k += 1
     # cross links between gadgets: an assignment cycle through names of different gadgets
@@ -133,6 +151,7 @@ def cyclic_graph(rnd, max_nodes=40, getattr_max=3):
         lines.append('link_a = link_b')
         lines.append('link_b = [link_a, %s]' % exprs[0].rstrip('.(') if exprs else 'link_b = link_a')
         exprs += ['link_a', 'link_b[0].']
+        kinds += ['cross_link', 'cross_link']
     # import cycle across modules
     if rnd.random() < 0.5:
         m = rnd.randint(2, 5)
@@ -142,7 +161,8 @@ def cyclic_graph(rnd, max_nodes=40, getattr_max=3):
         lines.insert(0, 'from cyc0 import val0, val_own0')
         lines.insert(1, 'import cyc0')
         exprs += ['val0', 'val_own0.', 'cyc0.']
-    uses = _uses_at_end(lines, exprs)
+        kinds += ['import_cycle'] * 3
+    uses = [u + (kd,) for u, kd in zip(_uses_at_end(lines, exprs), kinds)]
     files['main.py'] = '\n'.join(lines) + '\n'
     return files, 'main.py', uses
 
